@@ -72,9 +72,9 @@ def apply_script(base, script, typool):
             en["values"].append(v)
             a.update(touch=e["target"], list="enumerations", ins=v)
         elif k == "AddRequest":
-            r = {"method": "verif/newRequest", "messageDirection": "clientToServer"}
-            if e["typed"]:
-                r["typeName"] = "VerifNewRequest"
+            r = {"method": "verif/lookup", "messageDirection": "clientToServer"}
+            if e["typed"] != "none":
+                r["typeName"] = "VerifNewRequest" if e["typed"] == "suffixed" else "VerifLookup"
             if e["params"] == "ref":
                 r["params"] = {"kind": "reference", "name": "HoverParams"}
             r["result"] = {"ref": {"kind": "reference", "name": "Hover"},
@@ -83,16 +83,16 @@ def apply_script(base, script, typool):
                            "enumArray": {"kind": "array", "element": {"kind": "reference", "name": "SymbolKind"}}}[e["result"]]
             d["requests"].append(r)
             a.update(list="requests", ins=r)
-            touched.add("verif/newRequest")
+            touched.add("verif/lookup")
         elif k == "AddNotification":
-            r = {"method": "verif/newNotification", "messageDirection": "serverToClient"}
-            if e["typed"]:
-                r["typeName"] = "VerifNewNotification"
+            r = {"method": "verif/didLookup", "messageDirection": "serverToClient"}
+            if e["typed"] != "none":
+                r["typeName"] = "VerifNewNotification" if e["typed"] == "suffixed" else "VerifDidLookup"
             if e["params"] == "ref":
                 r["params"] = {"kind": "reference", "name": "HoverParams"}
             d["notifications"].append(r)
             a.update(list="notifications", ins=r)
-            touched.add("verif/newNotification")
+            touched.add("verif/didLookup")
         elif k == "Mark":
             val = {"proposed": True, "deprecated": "verif: deprecated", "since": "9.9.9"}[e["mark"]]
             if e["on"] == "structure":
@@ -351,7 +351,7 @@ def check(tier):
         results = list(ex.map(one_model, [(i, s, typool, base, tier) for i, s in enumerate(uniq)]))
     for r in results:
         for f in r["fails"]:
-            kinds = "+".join(sorted({e["k"] + (":" + e["ty"] if "ty" in e else "") + (":typeName-less" if e["k"] in ("AddRequest", "AddNotification") and not e["typed"] else "") for e in r["script"]})) or "identity"
+            kinds = "+".join(sorted({e["k"] + (":" + e["ty"] if "ty" in e else "") + ({"none": ":typeName-less", "plain": ":typeName-plain", "suffixed": ""}[e["typed"]] if e["k"] in ("AddRequest", "AddNotification") else "") for e in r["script"]})) or "identity"
             rep.violation({"edit": kinds, "stage": f["stage"], "clause": f["clause"], "pos": f["pos"]}, {"script": r["script"], "failure": f})
     rep.coverage.update({"states": distinct, "transitions": gen, "traces_validated_against_impl": len(results),
                          "evolved_models": len(results), "edit_kinds": sorted({e["k"] for r in results for e in r["script"]}),
